@@ -68,6 +68,20 @@ def cases(draw, thorough=False, procs=False):
                         for sub in t['sub']]
         if draw(st.integers(0, 7)) == 0:
             t['count'] = draw(st.sampled_from([0, 2, 3]))
+    # class names that differ only in letters outside ASCII (any mapping of suite names to file names must keep them apart)
+    if draw(st.integers(0, 2)) == 0:
+        pool = draw(st.permutations(['TC\u0394x', 'TC\u03a3x', 'TC_x', 'TC\u00e9x', 'TCex', 'TC\u0416x', 'TC\u00c9x']))
+        k = 0
+        for m in spec['modules']:
+            for node in _cases_in(m['tree']):
+                if k < len(pool):
+                    node['name'] = pool[k]
+                    k += 1
+    # test case classes whose instances are false in a boolean context (a __len__ of 0)
+    for m in spec['modules']:
+        for node in _cases_in(m['tree']):
+            if draw(st.integers(0, 5)) == 0:
+                node['falsy'] = True
     # doctests
     ndoc = draw(st.integers(0, 2))
     for k in range(ndoc):
@@ -92,6 +106,14 @@ def cases(draw, thorough=False, procs=False):
             text = ''.join(c for c in draw(messages()) if not 0xD800 <= ord(c) <= 0xDFFF)
             t.setdefault('acts', {}).setdefault(draw(st.sampled_from(['setUp', 'body'])), []).append(
                 ['out', draw(st.sampled_from(['o', 'e'])), text + '\n'])
+    relxml = False
+    if not procs and draw(st.integers(0, 5)) == 0:
+        # --xml DIR with a relative DIR, and a test that leaves the working directory changed
+        tests = [t for _, t in gen.iter_tests(spec)]
+        if tests:
+            relxml = True
+            t = tests[draw(st.integers(0, len(tests) - 1))]
+            t.setdefault('acts', {}).setdefault(draw(st.sampled_from(['setUp', 'body'])), []).append(['chdir', '/'])
     if procs:
         # a layer subprocess prints to a pipe in strict UTF-8: lone surrogates cannot be printed there (environment
         # precondition "the console can encode what is printed"), so they are left out of everything that gets printed
@@ -108,13 +130,19 @@ def cases(draw, thorough=False, procs=False):
                                       for a, b in ch['examples']]
         for L in spec['layers']:
             L['hooks'] = sorted(set(L['hooks']) | {'setUp', 'tearDown'}, key=gen.HOOKS.index)
-        mode = draw(st.sampled_from(['resume', 'resume', 'j2', 'j3']))
-        if mode == 'resume':
+        if draw(st.integers(0, 3)) == 0:
+            # a module that cannot be imported is reported as well (as an error of its own)
+            spec['modules'].append({'name': 'x1', 'fail': draw(st.sampled_from(('ImportError', 'ValueError', 'SyntaxError'))),
+                                    'tree': {'t': 's', 'ch': []}})
+        mode = draw(st.sampled_from(['resume', 'resume', 'j2', 'j3', 'plain']))
+        if mode == 'plain':
+            pass
+        elif mode == 'resume':
             for L in spec['layers']:
                 L.setdefault('faults', {})['tearDown'] = 'NIE'
         else:
             opts['j'] = int(mode[1])
-    return {'spec': spec, 'opts': opts}
+    return {'spec': spec, 'opts': opts, 'relxml': relxml}
 
 
 def _cases_in(node):
@@ -260,6 +288,18 @@ def oracle(spec, opts, run, folder):
                          '%s %s.%s: expected %d testcase element(s) with classname=%r and that name, found %d; '
                          'unmatched testcases: %s' % (what, cls, name, n, cls, got,
                                                        sorted(map(repr, remaining))[:6])))
+    # a module that could not be imported is a reported error: it appears as an error testcase named after the module
+    # (once per process that met it)
+    from .. import runtime
+    for m in spec['modules']:
+        if m.get('fail'):
+            mn = runtime.test_modname(spec, m)
+            keys = [key for key in remaining if key[2] == 'error' and mn in (key[0] or '')]
+            if not keys:
+                viol.append(('C17/bad-missing-or-misattributed', 'module %s could not be imported, but no error testcase '
+                             'names it; unmatched testcases: %s' % (mn, sorted(map(repr, remaining))[:6])))
+            for key in keys:
+                del remaining[key]
     for key, n in remaining.items():
         if n > 0:
             viol.append(('C17/unexpected-testcase', 'testcase %r x%d does not correspond to any executed test'
@@ -278,9 +318,15 @@ class InProc(Part):
         spec = common.with_prefix(case['spec'])
         folder = tempfile.mkdtemp(prefix='ztv-xml-', dir=drive.tmp_root())
         try:
-            opts = dict(case['opts'], xml=folder)
-            run = drive.run_inproc(spec, common.args_of(opts))
-            viol = oracle(spec, opts, run, folder)
+            if case.get('relxml'):
+                # the directory is named relative to where the run was started
+                opts = dict(case['opts'], xml='reports')
+                run = drive.run_inproc(spec, common.args_of(opts), before=lambda: os.chdir(folder))
+                viol = oracle(spec, opts, run, os.path.join(folder, 'reports'))
+            else:
+                opts = dict(case['opts'], xml=folder)
+                run = drive.run_inproc(spec, common.args_of(opts))
+                viol = oracle(spec, opts, run, folder)
         finally:
             shutil.rmtree(folder, ignore_errors=True)
         hostile = False
@@ -292,6 +338,10 @@ class InProc(Part):
         kinds = common.count_kinds(spec)
         special = 'subtests' in kinds or 'uxsuccess' in kinds
         labels = []
+        if case.get('relxml'):
+            labels.append('relative-xml-dir+chdir')
+        if any(not n['name'].isascii() for m in spec['modules'] for n in _cases_in(m['tree'])):
+            labels.append('non-ASCII-class-names')
         if hostile:
             labels.append('non-XML-char')
         if special:
